@@ -71,6 +71,134 @@ def jobs_for(tier, rnd):
     return jobs
 
 
+TABLE_GRAMMARS = [
+    ('operator-table', 'ignore /\\s+/\nclass Name { n: /[a-z]+/ }\nclass Index { pass "["; i: Expr; pass "]" }\n'
+                       'Expr = Name between {\n    postfix: Index\n    prefix: "-"\n    left: "*"\n    left: "+"\n}\nstart = Expr\n'),
+    ('operator-table-parens', 'ignore /\\s+/\nclass Name { n: /[a-z]+/ }\nclass Index { pass "["; i: Expr; pass "]" }\n'
+                              'Atom = Name | "(" >> Expr << ")"\nExpr = Atom between {\n    postfix: Index\n    right: "^"\n    left: "+"\n}\nstart = Expr\n'),
+    ('hand-built-object', 'ignore /\\s+/\nclass Name { n: /[a-z]+/ }\nclass Index { pass "["; i: Expr; pass "]" }\nclass Box { items: Fail("never parsed") }\n'
+                          'Expr = Name between {\n    postfix: Index\n    left: "+"\n}\nstart = Expr+ |> `lambda xs: Box(xs)`\n'),
+    ('hand-built-containers', 'ignore /\\s+/\nclass Name { n: /[a-z]+/ }\nclass Index { pass "["; i: Expr; pass "]" }\n'
+                              'Expr = Name between {\n    postfix: Index\n    left: "+"\n}\nstart = Expr+ |> `lambda xs: {"all": tuple(xs), "first": [xs[0]]}`\n'),
+]
+
+
+def _gen_expr(rnd, depth, ops):
+    ws = lambda: rnd.choice(['', '', ' ', '  ', '\n', ' \n '])
+    if depth == 0 or rnd.random() < 0.3:
+        e = rnd.choice(['a', 'b', 'cc', 'xyz'])
+    else:
+        k = rnd.choice(['bin', 'bin', 'idx', 'pre'] if '-' in ops else ['bin', 'bin', 'idx'])
+        if k == 'bin':
+            e = _gen_expr(rnd, depth - 1, ops) + ws() + rnd.choice([o for o in ops if o != '-']) + ws() + _gen_expr(rnd, depth - 1, ops)
+        elif k == 'idx':
+            e = rnd.choice(['a', 'b', 'cc']) + ws() + '[' + ws() + _gen_expr(rnd, depth - 1, ops) + ws() + ']'
+        else:
+            e = '-' + ws() + rnd.choice(['a', 'b', 'cc'])
+    return e + ws()
+
+
+def _expected_spans(text):
+    """independent of sourcer: spans of Name tokens and of [ ... ] groups, each reaching to just before the next token"""
+    import re
+    toks = [(m.group(), m.start()) for m in re.finditer(r'[a-z]+|\S', text)]
+    nxt = [toks[i + 1][1] if i + 1 < len(toks) else len(text) for i in range(len(toks))]
+    names, idx, stack = [], [], []
+    for i, (t, p) in enumerate(toks):
+        if t[0].isalpha():
+            names.append((p, nxt[i] - 1, t))
+        elif t == '[':
+            stack.append(p)
+        elif t == ']' and stack:
+            idx.append((stack.pop(), nxt[i] - 1))
+    return sorted(names), sorted(idx)
+
+
+def _linecol(text, i):
+    return (1 + text.count('\n', 0, i), i - (text.rfind('\n', 0, i) + 1) + 1)
+
+
+def finalised_everywhere(R, rnd):
+    """SPEC stream on the implementation alone (operator tables and hand-built results are not in the model): EVERY class
+    instance reachable through fields, operator nodes, lists, tuples and dict values has a finalised span with the
+    offsets, lines and columns computed here independently from the text."""
+    import sys
+    sys.path.insert(0, core.REPO)
+    from sourcer import Grammar
+    for label, desc in TABLE_GRAMMARS:
+        try:
+            g = Grammar(desc)
+        except Exception as e:      # noqa
+            R.counterexample('finalised-everywhere', 'generated-grammar-rejected:' + type(e).__name__, {'grammar': desc}, 'a grammar', str(e)[:200])
+            continue
+        ops = ['+', '*', '-'] if label == 'operator-table' else (['+', '^'] if 'parens' in label else ['+'])
+        for i in range(150 if R.tier == 'quick' else 3000):
+            if label.startswith('hand-built'):
+                text = ' '.join(_gen_expr(rnd, 2, ops) for _ in range(rnd.choice([1, 2, 3])))
+            else:
+                text = rnd.choice(['', ' ', '\n ']) + _gen_expr(rnd, 3, ops)
+            try:
+                res = g.parse(text)
+            except Exception as e:      # noqa
+                if text.strip() and type(e).__name__ in ('ParseError', 'PartialParseError'):
+                    # the generator only makes sentences of the grammar (juxtaposed expressions may merge: `a [b]`)
+                    R.count('finalised-everywhere-rejected', (label, text))
+                    continue
+                R.counterexample('finalised-everywhere', 'exception:' + type(e).__name__, {'grammar': desc, 'text': text}, 'a parse result', str(e)[:200])
+                continue
+            found_n, found_i, bad = [], [], []
+            seen = set()
+
+            def walk(v):
+                if id(v) in seen:
+                    return
+                if isinstance(v, (list, tuple)):
+                    seen.add(id(v))
+                    for x in v:
+                        walk(x)
+                elif isinstance(v, dict):
+                    seen.add(id(v))
+                    for x in v.values():
+                        walk(x)
+                elif hasattr(v, '_fields') and hasattr(v, '_metadata'):
+                    seen.add(id(v))
+                    cn = type(v).__name__
+                    if cn in ('Name', 'Index'):
+                        pi = v._metadata.position_info
+                        try:
+                            rec = (pi.start.index, pi.end.index, (pi.start.line, pi.start.column), (pi.end.line, pi.end.column))
+                        except Exception:       # noqa
+                            bad.append(f'{cn}: position_info is {pi!r}, not a finalised span')
+                            rec = None
+                        if rec:
+                            (found_n if cn == 'Name' else found_i).append(rec + ((v.n,) if cn == 'Name' else ()))
+                    for f in v._fields:
+                        walk(getattr(v, f))
+            walk(res)
+            en, ei = _expected_spans(text)
+
+            def lc(i):
+                return (None, None) if text[i:i + 1] == '\n' else _linecol(text, i)
+            for (a, b, la, lb, *rest), want in zip(sorted(found_n), en):
+                if (a, b) != want[:2] or (rest and rest[0] != want[2]):
+                    bad.append(f'Name {rest}: span {(a, b)}, expected {want}')
+                if text[a] != '\n' and la != _linecol(text, a) or (text[b] != '\n' and lb != _linecol(text, b)):
+                    bad.append(f'Name {rest}: line/column {la}..{lb}, expected {_linecol(text, a)}..{_linecol(text, b)}')
+            if len(found_n) != len(en):
+                bad.append(f'{len(found_n)} Name instances reached, {len(en)} names in the text')
+            for (a, b, la, lb), want in zip(sorted(found_i), ei):
+                if (a, b) != want:
+                    bad.append(f'Index: span {(a, b)}, expected {want}')
+            if len(found_i) != len(ei):
+                bad.append(f'{len(found_i)} Index instances reached, {len(ei)} bracket groups in the text')
+            R.count('finalised-everywhere', (label, text), nontrivial=len(en) > 1)
+            if bad:
+                R.counterexample('finalised-everywhere', 'instance-under-operator-node-or-hand-built-result-not-finalised',
+                                 {'grammar': desc, 'text': text}, 'every class instance of the result carries its finalised span', bad[:4])
+            else:
+                R.traces += 1
+
+
 def run(R):
     R.build()
     R.prove('Props/C10.v')
@@ -99,6 +227,7 @@ def run(R):
                 R.counterexample('ordered-nested', 'span-order-or-nesting',
                                  {'grammar': r['desc'], 'text': text, 'pos': pos},
                                  'spans nested in the parent, siblings disjoint and in input order', ix)
+    finalised_everywhere(R, rnd)
     R.extra['instances_judged'] = ninst
     R.assumptions += ['lookahead, Backtrack and reads of earlier values are exempt from the ordering claim (not judged there)',
                       'spans of instances that consumed nothing are outside the property']
